@@ -92,11 +92,13 @@ define("Inv_hash", ["cl"], """(
 # ---- serialization with version check (C10) -------------------------------------------------------------
 contract("Cluster._serialize", file=F,
          params=[("self", "Ref[Cluster]"), ("reason", "Opaque")],
-         requires=["ghost.cluster_lock", "paths_distinct(self)", "Inv_hash(self)"],
+         # Inv_hash (the cached hash belongs to the text on disk when the handle is current) is a hypothesis of the clauses that need it, not a
+         # precondition: the CLI callbacks' `finally: demote_from_submitter()` runs on whatever handle an exception left behind
+         requires=["ghost.cluster_lock", "paths_distinct(self)"],
          ensures=[
-             "Inv_hash(self)",
+             "implies(old(Inv_hash(self)), Inv_hash(self))",
              # whether or not the text had to be rewritten, the file now holds the in-memory config (T-hash)
-             "cfg_mirrored(self)",
+             "implies(old(Inv_hash(self)), cfg_mirrored(self))",
              "self._config.version == old(self._config.version) or self._config.version == old(self._config.version) + 1",
              "implies(self._config.version == old(self._config.version), ghost.files == old(ghost.files) and ghost.vfiles == old(ghost.vfiles) "
              "and ghost.file_writes == old(ghost.file_writes))",
@@ -107,7 +109,7 @@ contract("Cluster._serialize", file=F,
          raises={"ConfigVersionMismatch": {
              # C10: a stale handle cannot write - rejected before anything is touched
              "when": ["self._config.version != disk_cv(self)"], "iff": True,
-             "ensures": ["ghost.files == old(ghost.files) and ghost.vfiles == old(ghost.vfiles) and ghost.file_writes == old(ghost.file_writes)",
+             "ensures": ["implies(old(Inv_hash(self)), Inv_hash(self))", "ghost.files == old(ghost.files) and ghost.vfiles == old(ghost.vfiles) and ghost.file_writes == old(ghost.file_writes)",
                          "self._config.version == old(self._config.version)"]}},
          modifies=["ClusterConfig.version", "self._config_hash", "ghost.files", "ghost.vfiles", "ghost.file_writes"])
 
@@ -123,7 +125,7 @@ contract("Cluster._serialize_jobs", file=F,
          ],
          raises={"JobStatusVersionMismatch": {
              "when": ["val(self._job_status).version != disk_jv(self)"], "iff": True,
-             "ensures": ["ghost.files == old(ghost.files) and ghost.vfiles == old(ghost.vfiles) and ghost.file_writes == old(ghost.file_writes)",
+             "ensures": ["Inv_hash(self)", "ghost.files == old(ghost.files) and ghost.vfiles == old(ghost.vfiles) and ghost.file_writes == old(ghost.file_writes)",
                          "val(self._job_status).version == old(val(self._job_status).version)"]}},
          modifies=["JobStatus.version", "self._job_status_hash", "ghost.files", "ghost.vfiles", "ghost.file_writes"])
 
@@ -146,16 +148,16 @@ contract("Cluster._promote_to_submitter", file=F,
          ghost_ensures=["self.g_promoted == result"],
          raises={"ConfigVersionMismatch": {
              "when": ["isnone(self._config.submitter) and serialize and self._config.version != disk_cv(self)"], "iff": True,
-             "ensures": ["ghost.files == old(ghost.files) and ghost.vfiles == old(ghost.vfiles) and ghost.file_writes == old(ghost.file_writes)"],
+             "ensures": ["Inv_handle(self)", "ghost.files == old(ghost.files) and ghost.vfiles == old(ghost.vfiles) and ghost.file_writes == old(ghost.file_writes)"],
              "frame": False}},
          modifies=["self._config.submitter", "ClusterConfig.version", "self._config_hash", "ghost.files", "ghost.vfiles", "ghost.file_writes",
                    "self.g_promoted"])
 
 contract("Cluster._demote_from_submitter", file=F,
          params=[("self", "Ref[Cluster]"), ("serialize", "bool", "True")],
-         requires=["ghost.cluster_lock", "Inv_handle(self)",
-                   "self.g_promoted"],        # C10 discipline: only the promoted handle demotes (JADE's own assert follows from it)
-         ensures=["Inv_handle(self)", "isnone(self._config.submitter)", "implies(serialize, cfg_mirrored(self))"],
+         requires=["ghost.cluster_lock", "paths_distinct(self)",
+                   "self.g_promoted and self._config.submitter == self._hostname"],     # C10 discipline: only the promoted handle demotes (JADE's own assert)
+         ensures=["implies(old(Inv_handle(self)), Inv_handle(self))", "isnone(self._config.submitter)", "implies(serialize and old(Inv_handle(self)), cfg_mirrored(self))"],
          ghost_ensures=["not self.g_promoted"],
          raises={"ConfigVersionMismatch": {
              "when": ["serialize and self._config.version != disk_cv(self)"], "iff": True,
@@ -171,7 +173,7 @@ contract("Cluster._mark_complete", file=F,
          ensures=["Inv_handle(self)", "self._config.is_complete", "cfg_mirrored(self)"],
          raises={"ConfigVersionMismatch": {
              "when": ["self._config.version != disk_cv(self)"], "iff": True,
-             "ensures": ["ghost.files == old(ghost.files) and ghost.vfiles == old(ghost.vfiles) and ghost.file_writes == old(ghost.file_writes)"],
+             "ensures": ["Inv_handle(self)", "ghost.files == old(ghost.files) and ghost.vfiles == old(ghost.vfiles) and ghost.file_writes == old(ghost.file_writes)"],
              "frame": False}},
          modifies=["self._config.is_complete", "ClusterConfig.version", "self._config_hash", "ghost.files", "ghost.vfiles", "ghost.file_writes"])
 
@@ -181,7 +183,7 @@ contract("Cluster._mark_canceled", file=F,
          ensures=["Inv_handle(self)", "self._config.is_canceled", "cfg_mirrored(self)"],
          raises={"ConfigVersionMismatch": {
              "when": ["self._config.version != disk_cv(self)"], "iff": True,
-             "ensures": ["ghost.files == old(ghost.files) and ghost.vfiles == old(ghost.vfiles) and ghost.file_writes == old(ghost.file_writes)"],
+             "ensures": ["Inv_handle(self)", "ghost.files == old(ghost.files) and ghost.vfiles == old(ghost.vfiles) and ghost.file_writes == old(ghost.file_writes)"],
              "frame": False}},
          modifies=["self._config.is_canceled", "ClusterConfig.version", "self._config_hash", "ghost.files", "ghost.vfiles", "ghost.file_writes"])
 
@@ -352,7 +354,8 @@ contract("Cluster.update_job_status", file=F,
          ensures=UJ_POST + ["not ghost.cluster_lock"],
          raises=dict({k: dict(v, ensures=list(v.get("ensures", [])) + ["not ghost.cluster_lock", "ghost.lock_marker_left"]) for k, v in _uj.raises.items()},
                      Timeout={"ensures": ["ghost.files == old(ghost.files) and ghost.vfiles == old(ghost.vfiles) and ghost.file_writes == old(ghost.file_writes)",
-                                          "not ghost.cluster_lock"]}),
+                                          "not ghost.cluster_lock"]},
+                     AnyException={"ensures": ["not ghost.cluster_lock"], "frame": False}),      # the wrapper releases the lock whatever is raised inside
          modifies=list(_uj.modifies) + ["ghost.cluster_lock", "ghost.lock_marker_left"])
 
 contract("Cluster._are_all_jobs_complete", file=F,
@@ -364,7 +367,7 @@ contract("Cluster.are_all_jobs_complete", file=F,
          params=[("self", "Ref[Cluster]")], returns="bool",
          requires=["not ghost.cluster_lock", "not isnone(self._job_status)", "J(self)"],
          ensures=["result == forall(i, range(len(JOBS(self))), JOBS(self)[i].state == JobState.DONE)", "not ghost.cluster_lock"],
-         raises={"Timeout": {"ensures": ["not ghost.cluster_lock"]}},
+         raises={"Timeout": {"ensures": ["not ghost.cluster_lock"]}, "AnyException": {"ensures": ["not ghost.cluster_lock"], "frame": False}},
          modifies=["ghost.cluster_lock", "ghost.lock_marker_left"])
 
 contract("Cluster._complete_hpc_job_id", file=F,
